@@ -1059,6 +1059,11 @@ fn paths_on<G>(
             1 => { let m = rng.below(n); max = Some(m); min = m + 1; }
             2 => { let m = rng.below(n); max = Some(m); min = m; }
             3 => { min = n - 1 + rng.below(2); max = None; } // as many / more intermediate nodes than the graph can offer
+            // the ends of the usize range (finding D35, repaired: `l + 1` / `min + 1` used to overflow — a panic in
+            // debug builds, a wrapped bound in release builds): an upper bound that bounds nothing, a lower bound
+            // nothing can meet
+            4 => { max = Some(usize::MAX - rng.below(2)); }
+            5 => { min = usize::MAX - rng.below(2); }
             _ => {}
         }
         // from == to on 8 nodes: a dense graph has > 10^4 simple cycles through one node; keep the answer
